@@ -73,6 +73,13 @@ def catalogue():
     add("byte-order-bad-value", 'struct Foo:\n  0 [+2]  UInt  x\n    [byte_order: "MiddleEndian"]\n', False, default_bo=False)
     add("byte-order-on-virtual", 'struct Foo:\n  0 [+2]  UInt  x\n  let y = x\n    [byte_order: "BigEndian"]\n', False)
     add("byte-order-null-multibyte", 'struct Foo:\n  0 [+2]  UInt  x\n    [byte_order: "Null"]\n', False, default_bo=False)
+    # $default attributes are inherited through scopes: a struct-level $default of one attribute does not hide the module's others
+    add("struct-$default-enum_case-keeps-module-$default-byte_order",
+        'struct Foo:\n  [$default (cpp) enum_case: "kCamelCase"]\n  0 [+2]  UInt  x\n  2 [+4]  UInt  y\n' if False else
+        'struct Foo:\n  [(cpp) $default enum_case: "kCamelCase"]\n  0 [+2]  UInt  x\n  2 [+4]  UInt  y\n', True)
+    add("struct-$default-byte_order-overrides-module-default", 'struct Foo:\n  [$default byte_order: "BigEndian"]\n  0 [+2]  UInt  x\n', True)
+    add("nested-struct-inherits-outer-struct-$default", 'struct Outer:\n  [$default byte_order: "BigEndian"]\n  struct Inner:\n    0 [+2]  UInt  x\n  0 [+2]  Inner  i\n', True, default_bo=False)
+    add("sibling-struct-does-not-inherit-$default", 'struct Aa:\n  [$default byte_order: "BigEndian"]\n  0 [+2]  UInt  x\nstruct Bb:\n  0 [+2]  UInt  y\n', False, default_bo=False)
     # attributes
     add("unknown-attribute", "struct Foo:\n  [bogus: 1]\n  0 [+1]  UInt  x\n", False)
     add("duplicate-attribute", 'struct Foo:\n  0 [+2]  UInt  x\n    [byte_order: "BigEndian"]\n    [byte_order: "BigEndian"]\n', False)
